@@ -932,4 +932,51 @@ theorem insertSorted_sorted (rk : Val → Int) (v : Val) {xs : List Val} (hs : x
       · subst h1; exact Int.le_of_lt (Int.not_le.mp hnle)
       · exact hx.1 y h1
 
+/-! ## element-overwriting functions and nbutlast (extension round 4) -/
+
+theorem carsOf_take {h : Heap} : ∀ {as : List Nat} (k : Nat), (∀ a ∈ as, a < h.length) →
+    carsOf h (as.take k) = (carsOf h as).take k := by
+  intro as
+  induction as with
+  | nil => intro k _; simp [carsOf]
+  | cons a as ih =>
+    intro k hlt
+    cases k with
+    | zero => simp [carsOf]
+    | succ k =>
+      have ha : a < h.length := hlt a (by simp)
+      have hg : h[a]? = some h[a] := List.getElem?_eq_getElem ha
+      rw [List.take_succ_cons, carsOf_cons_some hg, carsOf_cons_some hg]
+      simp only [List.take_succ_cons]
+      rw [ih k (fun b hb => hlt b (by simp [hb]))]
+
+theorem replaceFrom_length : ∀ (xs vs : List Val), (replaceFrom xs vs).length = xs.length := by
+  intro xs
+  induction xs with
+  | nil => intro vs; simp [replaceFrom]
+  | cons x xs ih =>
+    intro vs
+    cases vs with
+    | nil => simp [replaceFrom]
+    | cons v vs => simp [replaceFrom, ih vs]
+
+/-- the element-overwriting functions keep the length of the list -/
+theorem FnD.app_length {f : FnD} {xs vs : List Val} (hf : f.app xs = .ok vs) : vs.length = xs.length := by
+  cases f with
+  | fill v => simp [FnD.app] at hf; subst hf; simp
+  | subst new old => simp [FnD.app] at hf; subst hf; simp
+  | substIf new p => simp [FnD.app] at hf; subst hf; simp
+  | mapInto g => simp [FnD.app] at hf; subst hf; simp
+  | addNth n d =>
+    simp only [FnD.app] at hf
+    cases hg : xs[n]? with
+    | none => simp [hg] at hf
+    | some x => simp [hg] at hf; subst hf; simp
+  | replaceAt s ws =>
+    simp only [FnD.app] at hf
+    by_cases hs : s ≤ xs.length
+    · simp [hs] at hf; subst hf
+      simp [replaceFrom_length]; omega
+    · simp [hs] at hf
+
 end SlipVerif.ListHeap
